@@ -20,10 +20,10 @@ Inductive eerr :=
 
 Inductive eres := RUnit | RNat (k : nat) | ROutcome (b : bool) | RErr (e : eerr).
 
-(* the gates of the common register interface (basics.quantumEngine); apply_S is not part of it *)
-Inductive egate1 := EX | EY | EZ | EH | EK.
+(* the gates of the common register interface (basics.quantumEngine) and apply_S, which stabilizerEngine offers since the repair of D7 *)
+Inductive egate1 := EX | EY | EZ | EH | EK | ES.
 Definition gate1_of (g : egate1) : gate1 :=
-  match g with EX => GX | EY => GY | EZ => GZ | EH => GH | EK => GK end.
+  match g with EX => GX | EY => GY | EZ => GZ | EH => GH | EK => GK | ES => GS end.
 Inductive egate2 := ECNOT | ECPHASE.
 Definition gate2_of (g : egate2) : gate2 := match g with ECNOT => GCNOT | ECPHASE => GCZ end.
 
